@@ -181,6 +181,14 @@ Proof.
   all: try (intros Hc Hh; exfalso;
             first [ destruct (Enoch Hc Hh) as [k' Hk']; congruence
                   | match goal with Hu : up _ = UOut ?k1 |- _ => rewrite (Euo k1 Hu) in Hh; discriminate end ]).
+  (* LCheck on the medium's marker: only after the subscribe window *)
+  all: try (intros _;
+            match goal with IS0 : SInv _ ?s0, Hm : dl ?s0 = DMark, Hp : c_pos _ = true, Hs : ch ?s0 = Sub _ _ |- _ =>
+              assert (Hcm : sub_committed (pc s0) = true) by (eapply Esub; exact Hs);
+              assert (Hw : in_window (pc s0) = false) by
+                (destruct (in_window (pc s0)) eqn:Ew; [|reflexivity]; exfalso;
+                 pose proof (i_entry_pc c s0 IS0 Hp Ew) as X; rewrite (i_mark c s0 IS0 Hm) in X; discriminate);
+              destruct (pc s0); try discriminate; reflexivity end).
   (* LCheck on a publication *)
   pose proof (check_pub_fields c s p lag) as F. cbv zeta in F.
   destruct F as (F1 & F2 & F3 & F4 & F5 & F6 & F7 & F8 & F9 & F10 & F11 & F12 & F13 & F14 & F15 & F16).
